@@ -44,7 +44,7 @@ def judge_pairs(ctx, pairs, tag):
         with open(path, "w") as f:
             json.dump(chunk, f)
         res = ctx.tlc(os.path.join(SERDE, "SerdeIRTrace.tla"), os.path.join(SERDE, "SerdeIRTrace.cfg"), tag=f"judge-{tag}-{b}",
-                      env={"TRACE_FILE": path}, deadlock=False, timeout=3000, count=False)
+                      env={"TRACE_FILE": path}, deadlock=False, timeout=3000, count=False, heap="4g")
         if not res.ok:
             raise MachineryError(f"trace judge failed: {res.violated} {res.errors[:2]}\n{res.tail(25)}")
         n = 0
@@ -147,14 +147,16 @@ def evaluate(ctx, results, verdicts, spec_by_id):
 
 def run(ctx):
     thorough = ctx.tier == "thorough"
-    runs = [("SerdeIRMC.cfg", 3, 1 if thorough else 3)]
+    quick_stride = int(os.environ.get("VERIF_C03_STRIDE", "3"))     # selftest runs use a thinner sample
+    quick_depth = int(os.environ.get("VERIF_C03_DEPTH", "3"))       # selftest runs may use 2 (= one edit after the seed)
+    runs = [("SerdeIRMC.cfg", 3 if thorough else quick_depth, 1 if thorough else quick_stride)]
     if thorough:
         runs.append(("SerdeIRMC_deep.cfg", 4, 1))
     total, all_divs, outer_all, ops = Counter(), Counter(), Counter(), Counter()
     judged = 0
     for cfg_name, depth, stride in runs:
         tag = cfg_name.replace(".cfg", "").lower()
-        res = ctx.tlc(os.path.join(SERDE, "SerdeIRMC.tla"), _cfg(ctx, cfg_name, depth), tag="mc-" + tag, deadlock=False, timeout=6000)
+        res = ctx.tlc(os.path.join(SERDE, "SerdeIRMC.tla"), _cfg(ctx, cfg_name, depth), tag="mc-" + tag, deadlock=False, timeout=6000, heap="4g")
         if not res.ok:
             raise MachineryError(f"design theorems failed in {cfg_name}: {res.violated} {res.errors[:2]}\n{res.tail(25)}")
         offset = ctx.seed % stride
